@@ -16,7 +16,7 @@
     Fermat's rule, normal cones, Bregman steps, conjugates, the primal-dual gap). *)
 From Coq Require Import List QArith Reals Qreals Lra Psatz String.
 From PV Require Import Base.IPS Model.Dict Model.Terms Model.StepsRT Gen.Steps Spec.Sem Spec.Classes Spec.StepsSpec
-                       Proofs.DictLemmas Proofs.SemLemmas Proofs.C08Lemmas Proofs.C08Records Proofs.C08Real.
+                       Proofs.DictLemmas Proofs.SemLemmas Proofs.C08Lemmas Proofs.C08Records Proofs.C08Real Proofs.C08Examples.
 Import ListNotations.
 Local Open Scope R_scope.
 
@@ -480,9 +480,9 @@ Definition ex_F : @fn R1 := mkFn (E := R1) (fun _ => True) (fun x : R => x * x /
 Example ex_is_prox : convex_fn ex_F /\ fn_ext ex_F /\ is_prox ex_F 1 (2 : R1) (1 : R1).
 Proof.
   split; [|split].
-  - intros x y t _ _ Ht. split; [exact Logic.I|]. unfold seg, vsub, vneg. cbn. nra.
-  - intros a b Hab. pose proof (Hab 1) as H1. cbn in H1. assert (a = b) by lra. subst. tauto.
-  - split; [exact Logic.I|]. intros y _. unfold nrm2, vsub, vneg. cbn. nra.
+  - intros x y t _ _ Ht. split; [exact Logic.I|]. unfold seg, vsub, vneg. cbn. apply ex_cvx_sq. exact Ht.
+  - intros a b Hab. apply ex_veq_R1 in Hab. subst. tauto.
+  - split; [exact Logic.I|]. intros y _. unfold nrm2, vsub, vneg. cbn. apply ex_prox_sq.
 Qed.
 
 (** linear optimisation over the interval [-1, 1] in direction 1: the minimiser is -1 *)
@@ -490,7 +490,7 @@ Definition ex_box : @fn R1 := mkFn (E := R1) (fun x : R => -1 <= x <= 1) (fun _ 
 Example ex_is_linopt : (forall z, dom ex_box z -> val ex_box z = 0) /\ fn_ext ex_box /\ is_linopt ex_box (1 : R1) (-1 : R1).
 Proof.
   split; [reflexivity|]. split.
-  - intros a b Hab. pose proof (Hab 1) as H1. cbn in H1. assert (a = b) by lra. subst. tauto.
+  - intros a b Hab. apply ex_veq_R1 in Hab. subst. tauto.
   - split; [cbn; lra|]. intros y Hy. cbn in *. lra.
 Qed.
 
@@ -511,9 +511,9 @@ Proof.
       unfold Rdiv in Ht. rewrite Rmult_assoc, Rinv_l, Rmult_1_r in Ht by lra. exact Ht. }
     pose proof (Rabs_pos t) as Hp. assert (Hsq : t * t = Rabs t * Rabs t) by (rewrite <- Rabs_mult; symmetry; apply Rabs_pos_eq; nra).
     rewrite Hsq. nra.
-  - intros a b Hab. pose proof (Hab 1) as H1. cbn in H1. assert (a = b) by lra. subst. split; [reflexivity|intro; reflexivity].
-  - intros x y. unfold vsub, vneg. cbn. nra.
+  - intros a b Hab. apply ex_veq_R1 in Hab. subst. split; [reflexivity|intro; reflexivity].
+  - intros x y. unfold vsub, vneg. cbn. apply ex_gc.
   - split.
     + exists [-3]. split; [reflexivity|]. intros w. unfold vsub, vneg. cbn. lra.
-    + intros y _. cbn. nra.
+    + intros y _. cbn. apply ex_min.
 Qed.
